@@ -12,6 +12,7 @@ import Fdo.Drv.Handover
 import Fdo.Drv.Chunk
 import Fdo.Drv.Rv
 import Fdo.Drv.Fsim
+import Fdo.Drv.Store
 /-
 Line-protocol driver: one operation per input line, one reply per output line.
 Imports model modules only (no proofs, no Mathlib) so that it links as a `lean_exe`.
@@ -34,6 +35,7 @@ def handlers : List (String × (String → List String → Option String)) := [
   ("chunk.", Drv.Chunk.handle),
   ("rv.", Drv.Rv.handle),
   ("fsim.", Drv.Fsim.handle),
+  ("store.", Drv.Store.handle),
 ]
 
 def dispatch (line : String) : String :=
